@@ -36,38 +36,38 @@ Proof.
 Qed.
 
 (* number of nodes not yet visited *)
-Definition unvis (gr : graph) : nat :=
+Definition unvis {Val} (gr : graph Val) : nat :=
   length (filter (fun n => negb (visited (get gr n))) (seq 0 (length gr))).
 
 (* same size, and visited flags only grow *)
-Definition vle (gr gr' : graph) :=
+Definition vle {Val} (gr gr' : graph Val) :=
   length gr' = length gr /\ forall m, visited (get gr m) = true -> visited (get gr' m) = true.
 
-Lemma vle_refl gr : vle gr gr.
+Lemma vle_refl {Val} (gr : graph Val) : vle gr gr.
 Proof. split; auto. Qed.
-Lemma vle_trans a b c : vle a b -> vle b c -> vle a c.
+Lemma vle_trans {Val} (a b c : graph Val) : vle a b -> vle b c -> vle a c.
 Proof. intros [L1 V1] [L2 V2]. split; [congruence|auto]. Qed.
 
-Lemma unvis_le_length gr : unvis gr <= length gr.
+Lemma unvis_le_length {Val} (gr : graph Val) : unvis gr <= length gr.
 Proof.
   unfold unvis. rewrite <- (seq_length (length gr) 0) at 2.
   generalize (seq 0 (length gr)). intros l. induction l as [|x l IH]; simpl; auto.
   destruct (negb _); simpl; lia.
 Qed.
 
-Lemma unvis_le gr gr' : vle gr gr' -> unvis gr' <= unvis gr.
+Lemma unvis_le {Val} (gr gr' : graph Val) : vle gr gr' -> unvis gr' <= unvis gr.
 Proof.
   intros [L V]. unfold unvis. rewrite L. apply filter_len_le. intros x _ Hx.
   destruct (visited (get gr x)) eqn:Vx; auto. rewrite (V x Vx) in Hx. discriminate.
 Qed.
 
-Lemma unvisited_in_range gr n : visited (get gr n) = false -> n < length gr.
+Lemma unvisited_in_range {Val} (gr : graph Val) n : visited (get gr n) = false -> n < length gr.
 Proof.
   intros H. destruct (lt_dec n (length gr)) as [|Ge]; auto.
   rewrite get_out in H by lia. discriminate.
 Qed.
 
-Lemma unvis_lt gr gr' n :
+Lemma unvis_lt {Val} (gr gr' : graph Val) n :
   vle gr gr' -> visited (get gr n) = false -> visited (get gr' n) = true -> unvis gr' < unvis gr.
 Proof.
   intros [L V] Vn Vn'. unfold unvis. rewrite L. apply (filter_len_lt _ _ _ n).
@@ -78,7 +78,7 @@ Proof.
 Qed.
 
 (* ---------------- the flag-level effect of the primitive steps ---------------- *)
-Lemma mark_vle s n d : vle (g s) (g (mark s n true d)).
+Lemma mark_vle {Val} (s : st Val) n d : vle (g s) (g (mark s n true d)).
 Proof.
   split; [rewrite mark_g; apply set_length|]. intros m Vm. rewrite mark_g.
   destruct (Nat.eq_dec n m) as [->|Ne]; [|rewrite get_set_other; auto].
@@ -86,13 +86,13 @@ Proof.
   apply get_out. rewrite set_length. lia.
 Qed.
 
-Lemma mark_visited s n d : visited (get (g (mark s n true d)) n) = true.
+Lemma mark_visited {Val} (s : st Val) n d : visited (get (g (mark s n true d)) n) = true.
 Proof.
   rewrite mark_g. destruct (lt_dec n (length (g s))) as [Lt|Ge]; [rewrite get_set_same; auto|].
   apply get_out. rewrite set_length. lia.
 Qed.
 
-Lemma run_update_vle F s n : vle (g s) (g (run_update F s n)).
+Lemma run_update_vle {Val} (F : rule Val) s n : vle (g s) (g (run_update F s n)).
 Proof.
   unfold run_update; simpl. split; [apply set_length|]. intros m Vm.
   destruct (Nat.eq_dec n m) as [->|Ne]; [|rewrite get_set_other; auto].
@@ -101,7 +101,7 @@ Proof.
 Qed.
 
 (* a fold of total steps is total *)
-Lemma fold_opt_some {A} (P : st -> Prop) (f : st -> A -> option st) l : forall s0,
+Lemma fold_opt_some {Val A} (P : st Val -> Prop) (f : st Val -> A -> option (st Val)) l : forall s0,
   P s0 -> (forall a x, In x l -> P a -> exists a', f a x = Some a' /\ P a') ->
   exists r, fold_left (fun acc x => match acc with None => None | Some a => f a x end) l (Some s0) = Some r /\ P r.
 Proof.
@@ -112,7 +112,8 @@ Proof.
 Qed.
 
 Section Fuel.
-  Variable F : rule.
+  Context {Val : Type}.
+  Variable F : rule Val.
   Variable orig : bool.
 
   (* one call either does nothing at all or strictly decreases the number of unvisited nodes *)
